@@ -437,10 +437,10 @@ def _compute_cam_pos0(
 
   cam_pos0_out[cam_pos0_id, camid] = cam_xpos - xpos_in[worldid, bodyid]
   if targetid >= 0:
-    cam_poscom0_out[cam_pos0_id, camid] = cam_xpos - subtree_com_in[worldid, targetid]
+    cam_poscom0_out[worldid % cam_poscom0_out.shape[0], camid] = cam_xpos - subtree_com_in[worldid, targetid]
   else:
-    cam_poscom0_out[cam_pos0_id, camid] = cam_xpos - subtree_com_in[worldid, bodyid]
-  cam_mat0_out[cam_pos0_id, camid] = cam_xmat_in[worldid, camid]
+    cam_poscom0_out[worldid % cam_poscom0_out.shape[0], camid] = cam_xpos - subtree_com_in[worldid, bodyid]
+  cam_mat0_out[worldid % cam_mat0_out.shape[0], camid] = cam_xmat_in[worldid, camid]
 
 
 @wp.kernel
@@ -463,10 +463,10 @@ def _compute_light_pos0(
 
   light_pos0_out[light_pos0_id, lightid] = light_xpos - xpos_in[worldid, bodyid]
   if targetid >= 0:
-    light_poscom0_out[light_pos0_id, lightid] = light_xpos - subtree_com_in[worldid, targetid]
+    light_poscom0_out[worldid % light_poscom0_out.shape[0], lightid] = light_xpos - subtree_com_in[worldid, targetid]
   else:
-    light_poscom0_out[light_pos0_id, lightid] = light_xpos - subtree_com_in[worldid, bodyid]
-  light_dir0_out[light_pos0_id, lightid] = light_xdir_in[worldid, lightid]
+    light_poscom0_out[worldid % light_poscom0_out.shape[0], lightid] = light_xpos - subtree_com_in[worldid, bodyid]
+  light_dir0_out[worldid % light_dir0_out.shape[0], lightid] = light_xdir_in[worldid, lightid]
 
 
 @wp.kernel
